@@ -209,13 +209,18 @@ def load_known():
     return {"open": [], "fixed": []}
 
 
+def load_known_ext():
+    p = VERIF / "known_findings_ext.json"
+    return json.loads(p.read_text()) if p.exists() else {"open": [], "fixed": []}
+
+
 # --------------------------------------------------------------------------- a running check
 
 class Check:
     def __init__(self, pid, tier, seed, level):
         self.pid, self.tier, self.seed, self.level = pid, tier, seed, level
         self.t0 = time.time()
-        self.work = WORK / pid
+        self.work = WORK / ("%s.%d" % (pid, os.getpid()))      # per process: concurrent runs of one check do not collide
         shutil.rmtree(self.work, ignore_errors=True)
         self.work.mkdir(parents=True, exist_ok=True)
         self.states = 0
@@ -231,7 +236,7 @@ class Check:
         self.assumptions = []
         self.extra = {}
         self.rule = ""
-        known = load_known()
+        known = load_known() if pid.startswith("C") else load_known_ext()      # X..: checks beyond the listed properties
         self.known_open = {f["key"]: f for f in known.get("open", []) if f["property"] == pid}
         self.quick = tier == "quick"
 
